@@ -14,8 +14,10 @@ def correspondence(ctx):
     return dict(evaluations=0, distinct_nontrivial=0, rule='none (abstract loop contract; see oracle)', samples=[], disagreements=[], stats={})
 
 
-def check(rng):
+def check(rng, override=None):
     m = M.load()
+    if override:
+        m.CALIB.update(override)
     flat = m.flat()
     nm, inner = m.nested()
     out, n = [], 0
@@ -99,6 +101,18 @@ def check(rng):
 def oracle(ctx, hints, broken):
     try:
         viol, n = check(ctx['rng'])
+        skipped = 0
+        if ctx['tier'] == 'thorough' or broken:
+            for _ in range(6):
+                ov = M.random_calib(ctx['rng'])
+                try:
+                    v2, n2 = check(ctx['rng'], ov)
+                except Exception:
+                    skipped += 1          # the generated model has no (reachable) steady state at this calibration
+                    continue
+                for v in v2:
+                    v['input'] = dict(v.get('input') or {}, calib_override=ov)
+                viol, n = viol + v2, n + n2
     except Exception as ex:
         import traceback
         viol, n = [dict(what=f'C06 oracle raised {type(ex).__name__}: {ex}', input=dict(kind='raise', trace=traceback.format_exc()[-700:]), signature=dict(op='raise'))], 1
@@ -112,5 +126,5 @@ def oracle(ctx, hints, broken):
 
 
 def replay(rp):
-    v = check(C.Rng(0))[0]
+    v = check(C.Rng(0), (rp.get('input') or {}).get('calib_override'))[0]
     return v[0] if v else None
